@@ -23,7 +23,7 @@ pub struct Job {
     pub req: String,
 }
 
-fn job(oracle: &'static str, req: String) -> Job {
+pub fn job(oracle: &'static str, req: String) -> Job {
     Job { oracle, req }
 }
 
@@ -87,7 +87,7 @@ fn dispatch(fam: &str, p: &Params) -> String {
     }
 }
 
-fn sfnt(tables: Vec<([u8; 4], Vec<u8>)>) -> Vec<u8> {
+pub fn sfnt(tables: Vec<([u8; 4], Vec<u8>)>) -> Vec<u8> {
     let mut fb = write_fonts::FontBuilder::new();
     for (tag, data) in tables {
         fb.add_raw(Tag::new(&tag), data);
@@ -95,17 +95,17 @@ fn sfnt(tables: Vec<([u8; 4], Vec<u8>)>) -> Vec<u8> {
     fb.build()
 }
 
-fn be16(out: &mut Vec<u8>, v: u16) {
+pub fn be16(out: &mut Vec<u8>, v: u16) {
     out.extend_from_slice(&v.to_be_bytes());
 }
-fn be24(out: &mut Vec<u8>, v: u32) {
+pub fn be24(out: &mut Vec<u8>, v: u32) {
     out.extend_from_slice(&v.to_be_bytes()[1..]);
 }
-fn be32(out: &mut Vec<u8>, v: u32) {
+pub fn be32(out: &mut Vec<u8>, v: u32) {
     out.extend_from_slice(&v.to_be_bytes());
 }
 
-fn minimal_head(upem: u16, loca_long: bool) -> Vec<u8> {
+pub fn minimal_head(upem: u16, loca_long: bool) -> Vec<u8> {
     let mut h = vec![0u8; 54];
     h[0..4].copy_from_slice(&0x00010000u32.to_be_bytes());
     h[12..16].copy_from_slice(&0x5F0F3CF5u32.to_be_bytes());
@@ -951,7 +951,7 @@ pub fn cffhint_jobs(rng: &mut Rng, thorough: bool) -> Vec<Job> {
                 continue;
             }
             let mut d = blues_dict(&[6], &[-15, 0, 700, 715]);
-            let mut push_real = |d: &mut Vec<u8>| {
+            let push_real = |d: &mut Vec<u8>| {
                 d.push(30);
                 // "0." then digits nibbles, then the end nibble(s)
                 let mut nib: Vec<u8> = vec![0, 0xA];
